@@ -333,6 +333,8 @@ fn generate(rng: &mut Rng, tier: &str, w: &mut CaseWriter) {
     for _ in 0..n {
         gen_aend_case(rng, w);
     }
+    // the BCF indexing key read off the site bytes against NV.Index.BcfSiteKey (appended last)
+    bytes::generate_bcfk(rng, tier, w);
 }
 
 fn gen_aend_case(rng: &mut Rng, w: &mut CaseWriter) {
